@@ -578,3 +578,57 @@ def check_locale_arms(ctx, r, rid="R5"):
         for fname in fns:
             r.inst("Interpolation::" + fname, "%d generated arms (baked / dynamic_load+ssr): one arm per defining locale, widened by exactly the locales that fall back to it; it binds that locale's table (own accessor, own size) and renders that locale's value, nothing else" % (n // 2))
     return True
+
+
+def check_display_new(ctx, r, rid="R4"):
+    """Interpolation::display_impl in the lazily loading client configuration (dynamic_load, not ssr): the generated `new` fetches the
+    string table in a `match` over the builder's locale.  Read back: one arm per locale that defines the key, widened by exactly the
+    locales that fall back to it, fetching that locale's own table (own accessor, own size) into that locale's variant of the holder."""
+    ast = ctx.ast
+    fn = ast.fn(MI, "display_impl", impl_self="Interpolation")
+    if fn is None:
+        r.missing("Interpolation::display_impl")
+        return False
+    absint.set_program(ast)
+    vals = {"en": Lit(0), "fr": Lit(1), "pt": Lit(0)}
+    counts = {"en": 3, "fr": 2, "pt": 5}
+    fallback = {"en": ["de", "it"], "pt": ["pt_BR"], "fr": []}
+
+    def loc(n):
+        return CF("Locale", name=K(n), top_locale_name=K(n), keys=L(T(K("k"), vals[n])), strings=L(), top_locale_string_count=I(counts[n]))
+    defaults = L(T(K("en"), L(K("de"), K("it"))), T(K("pt"), L(K("pt_BR"))))
+    ev = AEval(funcs=absint.file_funcs(ast, MV))
+    ev.cfg = lambda t: ("dynamic_load" in t and 'notfeature="ssr"' in t.replace(" ", "")) or t.replace(" ", "") == 'feature="dynamic_load"'
+    ev.builtins.update({"unwrap_at": lambda rv, a: rv[2][0] if rv[0] == "ctor" and rv[2] else rv})
+    ev.path_builtins = {"Key::new": lambda a: C("Some", K(a[0][1])), "Self::create_locale_string_impl": lambda a: L(TOK("STRING_ARMS"))}
+    ev.totokens = lambda x: (absint.fields_of(x)["name"][1] if x[0] == "ctor" and x[1] == "Key" else None)
+    known = {"key": K("k"), "ident": TOK("Builder"), "display_struct_ident": TOK("DisplayStruct"), "enum_ident": TOK("Locale"), "locale_field": K("_locale"), "fields": L(),
+             "locales": L(loc("en"), loc("fr"), loc("pt")), "locale_type_ident": TOK("LocaleStrings"), "defaults": defaults}
+    missing = [p_ for p_ in fn.params() if p_ not in known]
+    if missing:
+        raise Unknown("display_impl has parameters the model does not know: %s" % missing)
+    got = ev.run_fn(fn, [known[p_] for p_ in fn.params()])
+    if isinstance(got, str) or got[0] != "tok":
+        raise Unknown("display_impl: %s" % (got if isinstance(got, str) else absint.fmt(got)[:80]))
+    txt = re.sub(r"\s+", " ", got[1])
+    m = re.search(r"match builder \. _locale \{(.*?)\} ?;", txt)
+    if not m:
+        raise Unknown("the generated `new` has no `match builder._locale { .. }`: %s" % txt[-300:])
+    arms = re.findall(r"((?:Locale :: \w+ ?\|? ?)+)=> \{let translations : &' static \[Box < str >; (\d+)\] = super :: LocaleStrings :: (\w+) \(\) \. await ; (\w+) :: (\w+) \(translations\)\} ,?", m.group(1))
+    bad = None
+    seen = []
+    for pat, size, acc, holder, variant in arms:
+        names = re.findall(r"Locale :: (\w+)", pat)
+        own = names[0]
+        seen.append(own)
+        if own not in vals or sorted(names[1:]) != sorted(fallback.get(own, [])):
+            bad = bad or "the arm of `%s` also serves %s; the locales that fall back to it are %s" % (own, names[1:], fallback.get(own))
+        elif int(size) != counts[own] or own not in acc or variant != own or holder != "DisplayStructEnum":
+            bad = bad or "the arm of `%s` fetches a table of %s strings through `%s()` into `%s::%s`; this locale has %d strings, its own accessor and its own variant" % (own, size, acc, holder, variant, counts[own])
+    if sorted(seen) != sorted(vals):
+        bad = bad or "arms exist for %s (read from `%s`); the locales that define the key are %s" % (sorted(seen), m.group(1)[:200], sorted(vals))
+    if bad:
+        r.viol("%s:Interpolation::display_impl#new" % rid, bad, file=MI, line=fn.line)
+    else:
+        r.inst("Interpolation::display_impl (new, lazily loading client)", "3 generated arms: one per defining locale, widened by exactly its fallback locales, fetching that locale's own table into its own variant")
+    return True
